@@ -4,13 +4,17 @@ C05 — every well-formed statement row becomes exactly one transaction, faithfu
 Model: `Csv.parseRow` / `Csv.parseFile` (hand model of `parsers.parse_generic_csv` with `rules=[]`, tied by
 differential correspondence in harness/props/c05.py) and `Csv.cleanAmount` / `Csv.parseAmountExact`
 (`parsers.parse_amount` up to the call of `float()`).  `float()` and `datetime.strptime` are the fields of
-`o : Oracles`; every theorem holds for all of them.  A float is its IEEE bit pattern (`F64`).
+`o : Oracles`; every theorem of the first part holds for all of them.  A float is its IEEE bit pattern (`F64`).
+The LAST part ("the date") instantiates the date oracle with `Strptime.strptime`, the model of CPython's `_strptime`
+(Model/Strptime.lean, tied to `datetime.strptime` by its own dense correspondence): there `parseRow` / `parseFile` have
+no date oracle left - only `float()` and CPython's character tables (`Strptime.Tables`) remain parameters.
 
 `cfg.skipNonFinite = true` is the code with repair D5 (`if not math.isfinite(amount): continue`);
 `false` is the tree before it.  `accept_iff` needs the repair; `d5_unrepaired_accepts_nan` is the
 counterexample on the unrepaired model (the harness replays the same table on the real code).
 -/
 import TallyVerif.Lemmas.Csv
+import TallyVerif.Lemmas.Strptime
 
 namespace TallyVerif.Props.C05
 open TallyVerif.Csv
@@ -491,5 +495,221 @@ example :
 /-- the style hypothesis of the round-trip theorems is satisfiable -/
 example : ∀ c, (Style.mk true false (some '€') .postSpace false).symbol = some c → isCurrency c = true := by
   intro c h; cases h; decide
+
+/-! ## the date: `datetime.strptime` inside the model
+
+`Strptime.oracles T pf` answers `strptime` with the model of CPython's `_strptime` (`Strptime.strptime`); `T` = CPython's
+character tables (which characters are decimal digits and what they are worth, which characters a literal matches under
+IGNORECASE, `str.lower`), of which the theorems assume only what `TablesOk` says (their restriction to ASCII);
+`asciiTables_ok` shows that this is satisfiable. -/
+
+section Date
+open TallyVerif.Strptime
+
+/-- `matching`: the matcher inside `strptime` is the regular-expression engine's ordered-choice backtracking - it returns
+`r` exactly when `r` comes from the FIRST choice vector, in priority order (alternatives of a directive in the order
+written, white space longest first, earlier items more significant), under which the compiled format matches a prefix of the
+text; and nothing exactly when no choice vector matches. -/
+theorem strptime_match_is_first (T : Tables) (items : List Item) (s : Str) :
+    (∀ r, matchItems T items s = some r ↔ IsFirst T items s r) ∧
+    (matchItems T items s = none ↔ ∀ v, matchWith T items v s = none) :=
+  matchItems_first T items s
+
+/-- `round trip`: for EVERY format whose directives are among `%Y %y %m %d %b %B %H %M %S` and name year, month and day
+(`FmtOk`: nothing is asked of the separators), EVERY valid date-time whose year the format can write (`YearFits`: 1969..2068
+under `%y`) and EVERY spelling `strptime` is meant to accept (`SpellsOk`: one or two digits for day / month / hour / minute /
+second - one digit only where no digit follows -, any white space for a white-space run, any letter case of the month name):
+reading the written text gives back the date (and the time fields the format mentions; the others are 0). -/
+theorem strptime_strftimeWith (T : Tables) (hT : TablesOk T) (fmt : Str) (sps : List Spell) (t : DateTime)
+    (hf : FmtOk fmt = true) (hv : t.valid = true) (hy : YearFits fmt t = true) (hs : SpellsOk T sps fmt t = true) :
+    strptime T fmt (strftimeWith sps fmt t) = .ok (readBack fmt t) := by
+  unfold FmtOk at hf; unfold YearFits at hy; unfold SpellsOk at hs; unfold strftimeWith readBack
+  cases hc : compile fmt with
+  | error e => simp [hc] at hf
+  | ok items =>
+    simp only [hc] at hf hy hs ⊢
+    exact strptime_of_items hT fmt items sps t hc hf hv hy hs
+
+/-- `round trip`, the spelling `strftime` itself writes (zero padded, month names capitalised): no condition on the
+spelling is left - `%Y%m%d` reads back as well as `%m/%d/%Y`. -/
+theorem strptime_strftime (T : Tables) (hT : TablesOk T) (fmt : Str) (t : DateTime)
+    (hf : FmtOk fmt = true) (hv : t.valid = true) (hy : YearFits fmt t = true) :
+    strptime T fmt (strftime fmt t) = .ok (readBack fmt t) := by
+  refine strptime_strftimeWith T hT fmt [] t hf hv hy ?_
+  unfold SpellsOk
+  cases hc : compile fmt with
+  | error e => simp [FmtOk, hc] at hf
+  | ok items => exact spellsOk_nil T items t
+
+/-- the year, month and day read back are the date's own -/
+theorem readBack_date (fmt : Str) (t : DateTime) :
+    (readBack fmt t).year = t.year ∧ (readBack fmt t).month = t.month ∧ (readBack fmt t).day = t.day := by
+  unfold readBack; cases compile fmt <;> simp [restrict]
+
+/-- `determinism of the reading`: under an `FmtOk` format no two different dates are written the same way, whatever the
+(accepted) spellings: equal texts ⇒ equal year, month and day (and equal mentioned time fields). -/
+theorem strftime_injective (T : Tables) (hT : TablesOk T) (fmt : Str) (sps₁ sps₂ : List Spell) (t₁ t₂ : DateTime)
+    (hf : FmtOk fmt = true) (hv₁ : t₁.valid = true) (hv₂ : t₂.valid = true) (hy₁ : YearFits fmt t₁ = true)
+    (hy₂ : YearFits fmt t₂ = true) (hs₁ : SpellsOk T sps₁ fmt t₁ = true) (hs₂ : SpellsOk T sps₂ fmt t₂ = true)
+    (h : strftimeWith sps₁ fmt t₁ = strftimeWith sps₂ fmt t₂) :
+    readBack fmt t₁ = readBack fmt t₂ ∧ t₁.year = t₂.year ∧ t₁.month = t₂.month ∧ t₁.day = t₂.day := by
+  have h1 := strptime_strftimeWith T hT fmt sps₁ t₁ hf hv₁ hy₁ hs₁
+  have h2 := strptime_strftimeWith T hT fmt sps₂ t₂ hf hv₂ hy₂ hs₂
+  rw [h, h2] at h1
+  have heq : readBack fmt t₂ = readBack fmt t₁ := by injection h1
+  have d1 := readBack_date fmt t₁
+  have d2 := readBack_date fmt t₂
+  rw [heq] at d2
+  exact ⟨heq.symm, d1.1.symm.trans d2.1, d1.2.1.symm.trans d2.2.1, d1.2.2.symm.trans d2.2.2⟩
+
+/-- `rejection` (1): whatever `strptime` returns is a date of the calendar - month 1..12, day within the month (29 February
+only in leap years), year 1..9999, a time of the day.  No text is ever read as 30 February, month 13 or day 32. -/
+theorem strptime_ok_valid (T : Tables) (fmt s : Str) (t : DateTime) (h : strptime T fmt s = .ok t) : t.valid = true := by
+  obtain ⟨items, caps, a, -, -, -, hfin⟩ := strptime_ok_parts h
+  exact finish_valid a t hfin
+
+/-- `rejection` (2): a text is read only if it is in the language of the format from its first character to its last: there
+is a choice of one alternative per directive and of a (positive) number of white-space characters per white-space run
+under which the compiled format matches the WHOLE text (a wrong separator, a field outside its alternatives, trailing text:
+no such choice exists, so the result is an error). -/
+theorem strptime_ok_in_language (T : Tables) (fmt s : Str) (t : DateTime) (h : strptime T fmt s = .ok t) :
+    ∃ items v caps, compile fmt = .ok items ∧ matchWith T items v s = some (caps, []) := by
+  obtain ⟨items, caps, a, hc, hm, -, -⟩ := strptime_ok_parts h
+  obtain ⟨v, hv, -⟩ := ((matchItems_first T items s).1 (caps, [])).mp hm
+  exact ⟨items, v, caps, hc, hv⟩
+
+/-- a date format that compiles never makes `strptime` raise anything but `ValueError` -/
+theorem dateFormatOk_of_compile (T : Tables) (pf : Str → Option F64) (cfg : Cfg) (items : List Item)
+    (hc : compile cfg.spec.dateFormat = .ok items) : DateFormatOk (oracles T pf) cfg := by
+  intro tok e h
+  simp only [oracles, dateOracle] at h
+  split at h
+  · cases h
+  · rename_i e' he
+    cases h
+    exact strptime_err_of_compile_ok hc he
+
+/-- the stages of `parseRow` before the date is parsed all succeed -/
+def ReachesDate (cfg : Cfg) (row : List Str) (tok : Str) : Prop :=
+  maxCol cfg.spec < row.length ∧ (∃ desc caps, describe cfg.spec row = .ok (desc, caps) ∧ desc.isEmpty = false) ∧
+    (cell row cfg.spec.dateCol).isEmpty = false ∧ (cell row cfg.spec.amountCol).isEmpty = false ∧
+    dateToken cfg.spec (cell row cfg.spec.dateCol) = some tok
+
+/-- what `parseRow` returns for a row that gets as far as its date, when `strptime` fails -/
+theorem parseRow_date_error (o : Oracles) (cfg : Cfg) (row : List Str) (tok : Str) (e : DateErr)
+    (hr : ReachesDate cfg row tok) (he : o.strptime cfg.spec.dateFormat tok = .error e) :
+    parseRow o cfg row = .error e.toErr := by
+  obtain ⟨hlen, ⟨desc, caps, hd, hdne⟩, h1, h3, htok⟩ := hr
+  have hlen' : ¬ row.length ≤ maxCol cfg.spec := by omega
+  unfold parseRow
+  simp only [hlen', if_false, hd, h1, hdne, h3, htok, he, Bool.or_self, Bool.false_eq_true]
+
+/-- `rejection` (3), the row: if the date token is not read by `strptime` (any `ValueError`: not in the format's language,
+text left over, an impossible date), the row is skipped - and, by `bad_row_neutral`, every other row is read as before. -/
+theorem bad_date_row_neutral (T : Tables) (pf : Str → Option F64) (cfg : Cfg) (a b : List (List Str)) (row : List Str)
+    (tok : Str) (e : StrpErr) (hr : ReachesDate cfg row tok) (he : strptime T cfg.spec.dateFormat tok = .error e)
+    (hv : e.toDateErr = .valueError) (ha : NoFatal (oracles T pf) cfg a) (hb : NoFatal (oracles T pf) cfg b) :
+    parseRow (oracles T pf) cfg row = .error .valueError ∧
+    parseFile (oracles T pf) cfg (a ++ row :: b) = parseFile (oracles T pf) cfg (a ++ b) := by
+  have hrow : parseRow (oracles T pf) cfg row = .error .valueError := by
+    have := parseRow_date_error (oracles T pf) cfg row tok .valueError hr (by simp [oracles, dateOracle, he, hv])
+    simpa [DateErr.toErr] using this
+  exact ⟨hrow, bad_row_neutral (oracles T pf) cfg a b row ha hb .valueError hrow rfl⟩
+
+/-- `duplicate directive`: a date format that uses a directive twice (`%d/%d/%Y`) makes `strptime` raise `re.error`, which
+the per-row `except (ValueError, IndexError)` does not catch: the first row that gets as far as its date aborts the whole
+file (observation O-strptime-1 in notes/strptime_notes.md; the excluded case of `DateFormatOk`). -/
+theorem dup_directive_aborts_file (T : Tables) (pf : Str → Option F64) (cfg : Cfg) (pre post : List (List Str)) (row : List Str)
+    (tok : Str) (hre : compile cfg.spec.dateFormat = .error .reError) (hr : ReachesDate cfg row tok)
+    (hpre : NoFatal (oracles T pf) cfg pre) :
+    parseFile (oracles T pf) cfg (pre ++ row :: post) = .error .reError := by
+  have hrow : parseRow (oracles T pf) cfg row = .error .reError := by
+    have := parseRow_date_error (oracles T pf) cfg row tok .reError hr
+      (by simp [oracles, dateOracle, strptime_err_of_compile_err hre, StrpErr.toDateErr])
+    simpa [DateErr.toErr] using this
+  exact parseFile_fatal (oracles T pf) cfg pre row post hpre .reError hrow rfl
+
+/-- `carries the row's date`: a row that gets as far as its date, whose date token `strptime` reads as `t`, and whose amount
+is a finite non-zero number, becomes the transaction whose date is `t` (written `t.isoformat()`). -/
+theorem parseRow_of_date (T : Tables) (pf : Str → Option F64) (cfg : Cfg) (row : List Str) (tok : Str) (t : DateTime)
+    (desc : Str) (caps : List (Str × Str)) (q : F64) (hr : ReachesDate cfg row tok)
+    (hd : describe cfg.spec row = .ok (desc, caps))
+    (hdate : strptime T cfg.spec.dateFormat tok = .ok t) (hq : rawAmount (oracles T pf) cfg row = some q)
+    (hfin : q.isFinite = true) (hz : q.isZero = false) :
+    parseRow (oracles T pf) cfg row = .ok (mkTxn cfg row desc caps (isoformat t) q) := by
+  obtain ⟨hlen, ⟨desc', caps', hd', hdne⟩, h1, h3, htok⟩ := hr
+  rw [hd] at hd'; cases hd'
+  refine (parseRow_ok_iff (oracles T pf) cfg row _).mpr ⟨hlen, desc, caps, tok, isoformat t, q, hd, h1, hdne, h3, htok, ?_, hq,
+    fun _ => hfin, by rw [applySign_isZero]; exact hz, rfl⟩
+  simp [oracles, dateOracle, hdate]
+
+/-- the format has no white space at all (so nothing the date is written with contains white space) -/
+def FmtNoSpaces (fmt : Str) : Bool :=
+  match compile fmt with
+  | .ok items => noSpacesItems items
+  | .error _ => false
+
+/-- the format neither begins nor ends with white space -/
+def FmtEdgesOk (fmt : Str) : Bool :=
+  match compile fmt with
+  | .ok items => !startsWithSpaces items && lastNotSpaces items && !items.isEmpty
+  | .error _ => false
+
+/-- `the date cell` (format without white space, e.g. `%m/%d/%Y`): blanks around the date are stripped by the caller, and
+whatever follows the date after white space - the weekday of `01/02/2017  Mon`, a time - is cut off: the token handed to
+`strptime` is exactly the date as written, so (by `strptime_strftimeWith` and `parseRow_of_date`) the row's transaction
+carries exactly that date. -/
+theorem date_cell_token_cut (T : Tables) (hT : TablesOk T) (spec : Spec) (sps : List Spell) (t : DateTime) (pre post : Str)
+    (hf : FmtOk spec.dateFormat = true) (hns : FmtNoSpaces spec.dateFormat = true)
+    (hblank : spec.dateFormat.contains ' ' = false) (hv : t.valid = true)
+    (hs : SpellsOk T sps spec.dateFormat t = true) (hpre : pre.all isPySpace = true)
+    (hpost : post = [] ∨ ∃ c r, post = c :: r ∧ isPySpace c = true) :
+    dateToken spec (strip (pre ++ strftimeWith sps spec.dateFormat t ++ post)) = some (strftimeWith sps spec.dateFormat t) := by
+  unfold FmtOk at hf; unfold FmtNoSpaces at hns; unfold SpellsOk at hs
+  cases hc : compile spec.dateFormat with
+  | error e => simp [hc] at hf
+  | ok items =>
+    simp only [hc] at hf hns hs
+    have ht := fieldsOk_of_valid t hv
+    have hw := scan_wellShaped spec.dateFormat items (compile_ok_scan hc).1
+    have hren : (groupNames items).all renderable = true := by
+      simp only [namesOk, Bool.and_eq_true] at hf; exact hf.1.1.1
+    have hnosp := render_no_space (T := T) t ht items sps hw hren hs hns
+    have hne : renderItems sps items t ≠ [] := by
+      cases items with
+      | nil => simp [namesOk, groupNames] at hf
+      | cons it is =>
+        obtain ⟨c, r, h, -, -⟩ := render_head hT t ht it is sps hw hren hs
+        rw [h]; simp
+    simp only [strftimeWith, hc]
+    exact dateToken_first spec pre _ post hblank hne hnosp hpre hpost
+
+/-- `the date cell` (format with a blank, e.g. `%d %b %y`): the whole cell, stripped of surrounding blanks, is handed to
+`strptime`. -/
+theorem date_cell_token_whole (T : Tables) (hT : TablesOk T) (spec : Spec) (sps : List Spell) (t : DateTime) (pre post : Str)
+    (hf : FmtOk spec.dateFormat = true) (he : FmtEdgesOk spec.dateFormat = true)
+    (hblank : spec.dateFormat.contains ' ' = true) (hv : t.valid = true)
+    (hs : SpellsOk T sps spec.dateFormat t = true) (hpre : pre.all isPySpace = true) (hpost : post.all isPySpace = true) :
+    dateToken spec (strip (pre ++ strftimeWith sps spec.dateFormat t ++ post)) = some (strftimeWith sps spec.dateFormat t) := by
+  unfold FmtOk at hf; unfold FmtEdgesOk at he; unfold SpellsOk at hs
+  cases hc : compile spec.dateFormat with
+  | error e => simp [hc] at hf
+  | ok items =>
+    simp only [hc, Bool.and_eq_true, Bool.not_eq_true', List.isEmpty_eq_false_iff] at hf he hs
+    have ht := fieldsOk_of_valid t hv
+    have hw := scan_wellShaped spec.dateFormat items (compile_ok_scan hc).1
+    have hren : (groupNames items).all renderable = true := by
+      simp only [namesOk, Bool.and_eq_true] at hf; exact hf.1.1.1
+    simp only [strftimeWith, hc]
+    refine dateToken_whole spec pre _ post hblank ?_ (render_last hT t ht items sps hw hren hs he.1.2) hpre hpost
+    cases items with
+    | nil => exact absurd rfl he.2
+    | cons it is =>
+      obtain ⟨c, r, h, hc', -⟩ := render_head hT t ht it is sps hw hren hs
+      intro c' hc''
+      rw [h] at hc''; cases hc''
+      exact hc' (by simpa [startsWithSpaces] using he.1.1)
+
+end Date
 
 end TallyVerif.Props.C05
